@@ -11,6 +11,7 @@
      S1   lock; notify_all: swap the queue into a local list (lock stays held)
      SN   resume the next entry of the local list; when it is empty: unlock, return
      R0   reset(): event_.store(false)
+     OCC  occurred(): event_.load, one step, the value read goes to the log
    Oracle ESpur: a stale resume from the environment reaches the thread's agent (any time).
    The functions ev_* work on the event state and a sub-program-counter so that Model/Once.v can
    run them as part of call_once.  Executable definitions only. *)
@@ -78,9 +79,9 @@ Definition ev_enabled (t : nat) (e : evs) (pc : epc) : bool :=
 Definition ev_init : evs := {| flag := false; elk := None; ewq := []; eag := fun _ => a_init |}.
 
 (* ---------- the event on its own: threads run programs of wait / set / reset ---------- *)
-Inductive eop := EWait | ESet | EReset.
+Inductive eop := EWait | ESet | EReset | EOcc.
 Inductive eorc := ENorm | ESpur.
-Inductive eev := ERet (t : nat) (seen : bool) | ESetDone (t : nat).
+Inductive eev := ERet (t : nat) (seen : bool) | ESetDone (t : nat) | EOccurred (t : nat) (b : bool).
 
 Record eshared := { est : evs; elog : list eev }.
 Record elocal := { eprog : list eop; epcs : option epc }.
@@ -96,6 +97,8 @@ Definition e_tstep (o : eorc) (t : nat) (g : eshared) (l : elocal) : eshared * e
         | EWait :: _ => (g, {| eprog := eprog l; epcs := Some EW0 |})
         | ESet :: _ => (g, {| eprog := eprog l; epcs := Some ES0 |})
         | EReset :: _ => (g, {| eprog := eprog l; epcs := Some ER0 |})
+        | EOcc :: _ => ({| est := est g; elog := EOccurred t (flag (est g)) :: elog g |},
+                        {| eprog := tl (eprog l); epcs := None |})
         end
     | Some pc =>
         let '(e', pc') := ev_step t (est g) pc in
